@@ -131,6 +131,41 @@ def strip_values(key, v):
     return (v[0], tuple(e for _, e in v[1]))
 
 
+def dense_quant_check(ctx, lmq, stats):
+    """a dense order-3 model (36 words: 1 368 bigrams, 46 656 trigrams) whose orders above 1 hold exactly four probabilities in equal numbers and
+    two back-offs in equal numbers, quantised with 2 + 2 bits: every bin is filled with one value thousands of times over, so the quantised
+    trie owes the exact ARPA probabilities ("whenever no order has more distinct values than bins" in its one uncontroversial case)."""
+    rng = ctx.rng
+    dm = lc.gen_dense_model(rng, nwords=36, four_values=True)
+    sess = lc.Session(ctx, dm, "dense4")
+    qs = lc.gen_queries(rng, dm, ctx.pick(60, 400))
+    unk = -100 * lc.UNIT
+    out = []
+    base = {"arpa": "<lmcommon.gen_dense_model(nwords=36, four_values=True), VERIF_SEED %s>" % ctx.seed, "generator": "lmcommon.gen_dense_model"}
+    for typ in ("qtrie", "qatrie"):
+        r = sess.run_impl(lmq, typ, qs, opts=["probbits=2", "backoffbits=2"], timeout=300)
+        stats["impl_runs"] = stats.get("impl_runs", 0) + 1
+        if not r["head"].startswith("loaded") or len(r["lines"]) != len(qs):
+            out.append(("spec:dense-quantised-load:" + typ, "the dense four-value model does not load / answer as a 2+2-bit quantised trie: %s" % r["head"][:120], dict(base, type=typ), True))
+            continue
+        stats["dense_quantised_runs"] = stats.get("dense_quantised_runs", 0) + 1
+        bad = None
+        for (bos, ws), line in zip(qs, r["lines"]):
+            hist = [dm.bos] if bos else []
+            for i, (w, it) in enumerate(zip(ws, lc.parse_line(line, True))):
+                sp, sl = dm.bo_score(hist, w, unk)
+                stats["scores"] = stats.get("scores", 0) + 1
+                if it["fs"][0] != sp and bad is None:
+                    bad = (bos, ws, i, it["fs"][0], sp)
+                hist = [w] + hist
+        if bad:
+            out.append(("spec:prob:%s:dense-four-values" % typ, "FullScore prob %s/64 != ARPA recursion %s/64 although every bin holds one value" % (bad[3], bad[4]),
+                        dict(base, type=typ, opts=["probbits=2", "backoffbits=2"], bos=bad[0], words=bad[1], position=bad[2]), True))
+    import shutil
+    shutil.rmtree(sess.dir, ignore_errors=True)
+    return out
+
+
 def run(ctx):
     pres = vlib.coq_prove("C01")
     ctx.set_proof(pres)
@@ -174,6 +209,8 @@ def run(ctx):
         shutil.rmtree(sess.dir, ignore_errors=True)
         if len(allprob) > 30:
             break
+    if not ctx.replay_model and len(allprob) == 0:
+        allprob += dense_quant_check(ctx, lmq, stats)
     ctx.count("evaluations", stats.get("scores", 0))
     ctx.coverage["models"] = nmodels
     ctx.coverage["distinct_nontrivial"] = nontrivial
